@@ -6,6 +6,7 @@ package stack
 import (
 	"context"
 	"fmt"
+	"strings"
 	"time"
 
 	p9p "github.com/frobnitzem/go-p9p"
@@ -28,6 +29,9 @@ type SrvNegCase struct {
 	NotVersion bool // the first message is not a Tversion at all
 	FirstKind  uint8
 	Rendezvous bool
+	// which handler result that cannot fit in the agreed msize is tried: 0 an Rread, 1 an error
+	// whose text is longer than msize, 2 an Rstat with long names, 3 an Rwalk with too many qids
+	BigReply int `json:",omitempty"`
 }
 
 func genMSize(t *rapid.T, label string) uint32 {
@@ -44,6 +48,7 @@ func GenSrvNeg(t *rapid.T) SrvNegCase {
 	c := SrvNegCase{Propose: genMSize(t, "propose"), Rendezvous: rapid.Bool().Draw(t, "rendezvous")}
 	c.Version = rapid.OneOf(rapid.Just(harn.B("9P2000")), rapid.Just(harn.B("9P2000")), rapid.SampledFrom([]harn.B{harn.B("9P2000.u"), harn.B("unknown"), nil, harn.B("9P1999"), harn.B("9p2000")}),
 		rapid.Custom(func(t *rapid.T) harn.B { return harn.B(rapid.SliceOfN(rapid.Byte(), 0, 12).Draw(t, "v")) })).Draw(t, "version")
+	c.BigReply = rapid.IntRange(0, 3).Draw(t, "bigreply")
 	if rapid.IntRange(0, 7).Draw(t, "notversion") == 0 {
 		c.NotVersion = true
 		c.FirstKind = rapid.SampledFrom([]uint8{refwire.Tattach, refwire.Tauth, refwire.Rversion, refwire.Tclunk, refwire.Tflush, refwire.Tread}).Draw(t, "firstkind")
@@ -52,6 +57,16 @@ func GenSrvNeg(t *rapid.T) SrvNegCase {
 }
 
 const serverMax = 65536
+
+func minInt(a, b int) int {
+	if a < b {
+		return a
+	}
+	return b
+}
+
+// how far beyond msize the error text goes: from just too long for an Rerror frame to well beyond
+func rapid_pad(propose uint32) int { return []int{-8, -7, 0, 1, 50}[propose%5] }
 
 func RunSrvNeg(c SrvNegCase) harn.Result {
 	a, b := memconn.NewPair(memconn.Options{Rendezvous: c.Rendezvous})
@@ -175,9 +190,21 @@ func RunSrvNeg(c SrvNegCase) harn.Result {
 		before = h.Count()
 		p.Send(&refwire.Msg{Kind: refwire.Tstat, Tag: 3, Fid: 7})
 		if inv := h.WaitFor(before, func(i *server.Invocation) bool { return true }, bound); inv != nil {
-			inv.Release(server.Outcome{Msg: &refwire.Msg{Kind: refwire.Rread, Blob: harn.Blob{N: int(agreed), K: 1}}})
+			var out server.Outcome
+			switch c.BigReply {
+			case 1:
+				out = server.Outcome{ErrText: strings.Repeat("e", int(agreed)+rapid_pad(c.Propose)), Plain: c.Propose%2 == 0}
+			case 2:
+				out = server.Outcome{Msg: &refwire.Msg{Kind: refwire.Rstat, Stat: refwire.D{Name: harn.B(strings.Repeat("n", minInt(int(agreed), 65000))), UID: harn.B("u")}}}
+			case 3:
+				out = server.Outcome{Msg: &refwire.Msg{Kind: refwire.Rwalk, Qids: make([]refwire.Q, minInt(int(agreed)/13+1, 65535))}}
+			default:
+				out = server.Outcome{Msg: &refwire.Msg{Kind: refwire.Rread, Blob: harn.Blob{N: int(agreed), K: 1}}}
+			}
+			inv.Release(out)
+			res.Classes = append(res.Classes, fmt.Sprintf("oversize_result_%d", c.BigReply))
 			if rf, ok, _ := p.Next(5 * time.Millisecond); ok && len(rf.Raw) > int(agreed) {
-				return fail("server emitted a %d-byte frame, agreed msize is %d", len(rf.Raw), agreed)
+				return fail("server emitted a %d-byte %s frame for a handler result that cannot fit, agreed msize is %d", len(rf.Raw), kindName(rf.Msg), agreed)
 			}
 		}
 	}
